@@ -88,18 +88,24 @@ Record world := {
   w_disk : disk;
   w_fail : option nat;     (* Some k: the k-th next mutating FS operation fails (no effect) *)
   w_fired : bool;
+  w_crash : bool;          (* the armed operation is a process crash, not an error return *)
+  w_dead : bool;           (* the process has died: no further file-system effect *)
   w_log : list fsop        (* newest first *)
 }.
 
 Definition set_disk (w : world) (d : disk) : world :=
-  {| w_disk := d; w_fail := w_fail w; w_fired := w_fired w; w_log := w_log w |}.
+  {| w_disk := d; w_fail := w_fail w; w_fired := w_fired w; w_crash := w_crash w; w_dead := w_dead w; w_log := w_log w |}.
 
 (* one mutating operation: returns false when the injected fault hits it *)
 Definition fs_mut (w : world) (o : fsop) (eff : disk -> disk) : bool * world :=
+  if w_dead w then (false, w) else
   match w_fail w with
-  | Some O => (false, {| w_disk := w_disk w; w_fail := None; w_fired := true; w_log := w_log w |})
-  | Some (S k) => (true, {| w_disk := eff (w_disk w); w_fail := Some k; w_fired := w_fired w; w_log := o :: w_log w |})
-  | None => (true, {| w_disk := eff (w_disk w); w_fail := None; w_fired := w_fired w; w_log := o :: w_log w |})
+  | Some O => (false, {| w_disk := w_disk w; w_fail := None; w_fired := true; w_crash := w_crash w;
+                         w_dead := w_crash w; w_log := w_log w |})
+  | Some (S k) => (true, {| w_disk := eff (w_disk w); w_fail := Some k; w_fired := w_fired w; w_crash := w_crash w;
+                            w_dead := false; w_log := o :: w_log w |})
+  | None => (true, {| w_disk := eff (w_disk w); w_fail := None; w_fired := w_fired w; w_crash := w_crash w;
+                      w_dead := false; w_log := o :: w_log w |})
   end.
 
 (* os.MkdirAll(dir): a mutation only when the directory is missing *)
@@ -533,7 +539,7 @@ Inductive op :=
 | OMany (ms : list member)
 | OBulk (csize : Z) (ms : list member)
 | ODelete (u : N)
-| ODeleteAll
+| ODeleteAll (order : list N)        (* oracle: the (map) order in which files were removed *)
 | OGet (u : N)
 | OExist (u : N)
 | OCount
@@ -557,9 +563,10 @@ Inductive op :=
 | OSchema
 | OTick
 | OFailAt (k : nat)
+| OCrashAt (k : nat)                 (* the process dies at the k-th next mutating FS operation *)
 (* faults applied to the directory from outside *)
 | XRmFile (u : N)
-| XAddFile (u : N) (o : obj)
+| XAddFile (u : N) (sfx : list N) (o : obj)
 | XCorrupt (u : N)
 | XRmSchema
 | XRmEntry (u : N)
@@ -575,7 +582,8 @@ Inductive out :=
 | RSearch (e : option err) (n : Z)
 | RMany (r : res unit) (n : Z)
 | RKeys (r : res (list key))
-| RPanic.
+| RPanic
+| RCrash.
 
 Definition lift_e (e : option err) : res unit := match e with None => Ok tt | Some x => Err x end.
 
@@ -820,9 +828,10 @@ Definition step_fg (hk : hooks) (live_shape : N) (s : state) (o : op) : state * 
       | (h1, _, Some e) => (mk h1 w, RUnit (Err e))   (* second lookup (commit) fails the same way or succeeds *)
       | (h1, None, None) => (mk h1 w, RUnit (Err EOther))
       end
-  | ODeleteAll =>
+  | ODeleteAll order =>
       with_schema live_shape s
-        (fun h1 m => do_delete_objects live_shape h1 w (map (fun p => Some (snd p)) (oi_ids (m_idx m))))
+        (fun h1 m => do_delete_objects live_shape h1 w
+                       (map (fun u => Some u) (order_by order (map snd (oi_ids (m_idx m))))))
         (fun h1 e => (mk h1 w, RUnit (Err e)))
   | OGet u =>
       with_schema live_shape s
@@ -1009,19 +1018,27 @@ Definition step_fg (hk : hooks) (live_shape : N) (s : state) (o : op) : state * 
       | (h1, _, e) => (mk h1 w, RUnit (lift_e e))
       end
   | OTick => (s, RUnit (Ok tt))       (* handled by [step] *)
-  | OFailAt k => (mk h {| w_disk := d; w_fail := Some k; w_fired := false; w_log := w_log w |}, RUnit (Ok tt))
+  | OFailAt k => (mk h {| w_disk := d; w_fail := Some k; w_fired := false; w_crash := false; w_dead := false;
+                          w_log := w_log w |}, RUnit (Ok tt))
+  | OCrashAt k => (mk h {| w_disk := d; w_fail := Some k; w_fired := false; w_crash := true; w_dead := false;
+                           w_log := w_log w |}, RUnit (Ok tt))
   | XRmFile u =>
+      if negb (existsb (fun p => N.eqb (fn_uuid (fst p)) u) (d_files d)) then (s, RUnit (Err ENotFound)) else
       (mk h (set_disk w {| d_dir := d_dir d; d_schema := d_schema d;
                            d_files := filter (fun p => negb (N.eqb (fn_uuid (fst p)) u)) (d_files d);
                            d_other := d_other d |}), RUnit (Ok tt))
-  | XAddFile u ob =>
-      let sfx := match d_schema d with Some (SOk sf) => suffix_of (sf_set sf) | _ => [] end in
+  | XAddFile u sfx ob =>
       (mk h (set_disk w (disk_set_file {| fn_uuid := u; fn_suffix := sfx |} (COk ob) d)), RUnit (Ok tt))
   | XCorrupt u =>
+      if negb (existsb (fun p => N.eqb (fn_uuid (fst p)) u) (d_files d)) then (s, RUnit (Err ENotFound)) else
       (mk h (set_disk w {| d_dir := d_dir d; d_schema := d_schema d;
                            d_files := map (fun p => if N.eqb (fn_uuid (fst p)) u then (fst p, CBad) else p) (d_files d);
                            d_other := d_other d |}), RUnit (Ok tt))
-  | XRmSchema => (mk h (set_disk w (disk_set_schema None d)), RUnit (Ok tt))
+  | XRmSchema =>
+      match d_schema d with
+      | None => (s, RUnit (Err ENotFound))
+      | Some _ => (mk h (set_disk w (disk_set_schema None d)), RUnit (Ok tt))
+      end
   | XRmEntry u =>
       match d_schema d with
       | Some (SOk sf) =>
@@ -1042,7 +1059,8 @@ Definition step_fg (hk : hooks) (live_shape : N) (s : state) (o : op) : state * 
       end
   | XStray name =>
       (mk h (set_disk w {| d_dir := d_dir d; d_schema := d_schema d; d_files := d_files d;
-                           d_other := d_other d ++ [name] |}), RUnit (Ok tt))
+                           d_other := if existsb (str_eqb name) (d_other d) then d_other d else d_other d ++ [name] |}),
+       RUnit (Ok tt))
   | XStrayUuidDir u =>
       (mk h (set_disk w (disk_set_file {| fn_uuid := u; fn_suffix := [46; 106; 115; 111; 110]%N |} CDir d)), RUnit (Ok tt))
   end.
@@ -1058,11 +1076,13 @@ Definition step (hk : hooks) (live_shape : N) (s : state) (o : op) : state * out
       | Panic => (s, RPanic)
       end
   | _ =>
-      let armed := match o with OFailAt _ => true | _ => false end in
+      let armed := match o with OFailAt _ | OCrashAt _ => true | _ => false end in
       let (s1, r) := step_fg hk live_shape s o in
       let w1 := s_w s1 in
       let w2 := if armed then w1
-                else {| w_disk := w_disk w1; w_fail := None; w_fired := w_fired w1; w_log := w_log w1 |} in
+                else {| w_disk := w_disk w1; w_fail := None; w_fired := w_fired w1; w_crash := false;
+                        w_dead := false; w_log := w_log w1 |} in
+      if w_dead w1 then (mk new_handle w2, RCrash) else
       match settle live_shape (s_h s1) w2 with
       | Ok (h2, w3) => (mk h2 w3, r)
       | Err e => (mk (s_h s1) w2, r)
@@ -1071,7 +1091,8 @@ Definition step (hk : hooks) (live_shape : N) (s : state) (o : op) : state * out
   end.
 
 Definition init_state : state :=
-  {| s_h := new_handle; s_w := {| w_disk := empty_disk; w_fail := None; w_fired := false; w_log := [] |} |}.
+  {| s_h := new_handle; s_w := {| w_disk := empty_disk; w_fail := None; w_fired := false; w_crash := false;
+                                  w_dead := false; w_log := [] |} |}.
 
 Definition run (hk : hooks) (live_shape : N) (s : state) (ops : list op) : state :=
   fold_left (fun st o => fst (step hk live_shape st o)) ops s.
